@@ -98,3 +98,42 @@ MUTANTS += [
     M("c04-r4-revert-short-read", "C04", "C04.R4", FILES, "\tfor off := 0; off < len(buf); {\n\t\tn, rerr := unix.Read(fd, buf[off:])\n\t\tif rerr != nil {\n\t\t\tunix.Close(fd)\n\t\t\treturn nil, rerr\n\t\t}\n\t\tif n <= 0 {\n\t\t\tunix.Close(fd)\n\t\t\treturn nil, io.ErrUnexpectedEOF\n\t\t}\n\t\toff += n\n\t}\n",
       "\tn, rerr := unix.Read(fd, buf)\n\tif rerr != nil {\n\t\tunix.Close(fd)\n\t\treturn nil, rerr\n\t}\n\tif n != len(buf) {\n\t\tbuf = buf[:n]\n\t}\n", "short read: original defect D12"),
 ]
+
+CIB = "orchestrate/obykeyset/channelinputbuffer.go"
+IDGEN = "output/shared/chunkidgen.go"
+
+MUTANTS += [
+    # ---------------- C05
+    M("c05-r1-two-workers", "C05", "C05.R1", PIPE, "\t\tprocWorker.Start()\n", "\t\tprocWorker.Start()\n\t\tprocWorker.Start()\n", "two goroutines consume one pipeline channel: records reordered under load"),
+    M("c05-r2-no-copy", "C05", "C05.R2", CIB, "\treusableLogBuffer := bsupport.CopyLogBuffer(pendingLogs)\n", "\treusableLogBuffer := pendingLogs\n\t_ = bsupport.CopyLogBuffer\n", "next records appended while the worker still reads the flushed slice"),
+    B("c05-r2-benign-truncate-first", "C05", CIB, "\treusableLogBuffer := bsupport.CopyLogBuffer(pendingLogs)\n\tcache.PendingLogs = pendingLogs[:0]\n", "\tcache.PendingLogs = pendingLogs[:0]\n\treusableLogBuffer := bsupport.CopyLogBuffer(pendingLogs)\n"),
+    M("c05-r2-copy-after-truncate", "C05", "C05.R2", CIB, "\tpendingLogs := cache.PendingLogs\n\treusableLogBuffer := bsupport.CopyLogBuffer(pendingLogs)\n\tcache.PendingLogs = pendingLogs[:0]\n", "\tpendingLogs := cache.PendingLogs\n\tcache.PendingLogs = pendingLogs[:0]\n\treusableLogBuffer := bsupport.CopyLogBuffer(cache.PendingLogs)\n", "every flush sends an empty batch: records lost"),
+    M("c05-r3-no-sort", "C05", "C05.R3", SESS, "\tsort.Slice(chunks, func(i, j int) bool { return chunks[i].ID < chunks[j].ID })\n", "", "session ends with chunks in the pending map (map iteration order) and in the channel", more=[(SESS, "\t\"os/signal\"\n\t\"sort\"\n", "\t\"os/signal\"\n")]),
+    B("c05-r3-benign-slices-sort", "C05", SESS, "\tsort.Slice(chunks, func(i, j int) bool { return chunks[i].ID < chunks[j].ID })\n", "\tslices.SortFunc(chunks, func(a, b base.LogChunk) int { return strings.Compare(a.ID, b.ID) })\n", more=[(SESS, "\t\"os/signal\"\n\t\"sort\"\n", "\t\"os/signal\"\n\t\"slices\"\n\t\"strings\"\n")]),
+    M("c05-r3-partial-dedup", "C05", "C05.R3", SESS, "\t\tif c.ID == lastChunkID {\n", "\t\tif c.ID == lastChunkID && c.Saved {\n", "a transient chunk both unsent in the previous leftovers and pending"),
+    M("c05-r6-unlock-before-read", "C05", "C05.R6", IDGEN, "\tnextSequence := generator.sequence\n\tgenerator.Unlock()\n", "\tgenerator.Unlock()\n\tnextSequence := generator.sequence\n", "two pipelines' chunk makers sharing a generator in the same nanosecond"),
+    M("c05-r6-variable-width-id", "C05", "C05.R6", IDGEN, "\"%019d-%08d\"", "\"%d-%d\"", "more than 10 chunks within one timestamp: string sort differs from creation order"),
+    M("c05-r6-foreign-id", "C05", "C05.R6", "output/shared/messagepacker.go", "\tpacker.currentChunk = nil\n\n\treturn result", "\tpacker.currentChunk = nil\n\tresult.ID = \"x\" + result.ID\n\n\treturn result", "ids no longer time ordered"),
+]
+
+SP = "input/syslogparser/syslogparser.go"
+COMP = "input/sysloginput/compositeparser.go"
+
+MUTANTS += [
+    # ---------------- C09
+    M("c09-r1-drop-without-count", "C09", "C09.R1", SP, "\t\tparser.onMalformed(record, \"unfinished syslog\", input)\n\t\treturn nil", "\t\treturn nil", "a line of 32+ bytes starting with '<' and containing no space"),
+    M("c09-r1-pass-counted-early", "C09", "C09.R1", SP, "\trecord.Timestamp = timestamp // actual timestamp is to be parsed and filled by transform.parseTimeTransform\n", "\trecord.Timestamp = timestamp // actual timestamp is to be parsed and filled by transform.parseTimeTransform\n\tparser.inputCounter.CountRecordPass(record)\n", "any malformed line: counted as passed and dropped", more=[(SP, "\tparser.inputCounter.CountRecordPass(record)\n\n\treturn record", "\treturn record")]),
+    M("c09-r2-revert-clean-on-cut", "C09", "C09.R2", SP, "\t\t// cut and clean up the end, as a multi-byte UTF-8 sequence may be cut in the middle\n\t\tremaining = util.StringFromBytes(\n\t\t\tutil.CleanUTF8(util.BytesFromString(remaining[:defs.InputLogMaxMessageBytes])),\n\t\t)\n\t} else if record.RawLength >= defs.InputLogMaxRecordBytes {",
+      "\t\tremaining = remaining[:defs.InputLogMaxMessageBytes]\n\t}\n\tif record.RawLength >= defs.InputLogMaxRecordBytes {", "message of 1 MiB + k bytes (k < 256 - header) with a multi-byte character across the limit: original defect D22"),
+    M("c09-r2-overflow-not-counted", "C09", "C09.R2", SP, "\t\tparser.onOverflow(input)\n", "", "over-long message"),
+    B("c09-r2-benign-max-local", "C09", SP, "\tif len(remaining) > defs.InputLogMaxMessageBytes {\n\t\tparser.onOverflow(input)\n\t\t// cut and clean up the end, as a multi-byte UTF-8 sequence may be cut in the middle\n\t\tremaining = util.StringFromBytes(\n\t\t\tutil.CleanUTF8(util.BytesFromString(remaining[:defs.InputLogMaxMessageBytes])),",
+      "\tmaxLen := defs.InputLogMaxMessageBytes\n\tif len(remaining) > maxLen {\n\t\tparser.onOverflow(input)\n\t\t// cut and clean up the end, as a multi-byte UTF-8 sequence may be cut in the middle\n\t\tremaining = util.StringFromBytes(\n\t\t\tutil.CleanUTF8(util.BytesFromString(remaining[:maxLen])),"),
+    M("c09-r4-no-release-on-drop", "C09", "C09.R4", COP.replace("buffer/hybridbuffer/chunkoperator.go", COMP), "\t\tcp.deallocator.Release(record)\n", "", "extraction transform drops a record: pooled record and backing buffer leak"),
+    # ---------------- C19
+    M("c19-r2-pass-counted-before-filter", "C19", "C19.R2", LPW, "\t\ticounter := worker.procCounter.SelectMetricKeySet(record)\n", "\t\ticounter := worker.procCounter.SelectMetricKeySet(record)\n\t\ticounter.CountRecordPass(record)\n", "any record dropped by a transform: counted passed and dropped", more=[(LPW, "\t\t}\n\t\ticounter.CountRecordPass(record)\n", "\t\t}\n")]),
+    M("c19-r2-flush-chunk-not-counted", "C19", "C19.R2", LPW, "\t\tmaybeChunk := output.FlushBuffer()\n\t\tif maybeChunk != nil {\n\t\t\tworker.procCounter.CountChunk(i, maybeChunk)\n", "\t\tmaybeChunk := output.FlushBuffer()\n\t\tif maybeChunk != nil {\n\t\t\t_ = i\n", "chunks emitted by the timed flush are missing from chunks_total"),
+    M("c19-r4-forwarded-before-queue", "C19", "C19.R4", SESS, "\t// pass forwarded chunk to acknowledger\n\tselect {\n\tcase session.ackerChan <- chunk:\n\t\tsession.metrics.OnForwarded(chunk)\n", "\t// pass forwarded chunk to acknowledger\n\tsession.metrics.OnForwarded(chunk)\n\tselect {\n\tcase session.ackerChan <- chunk:\n", "stop request between send and queueing: pendingAck gauge never returns to zero"),
+    M("c19-r4-session-ended-operand", "C19", "C19.R4", SESS, "\tsession.metrics.OnSessionEnded(len(fromPrevious), len(fromAckerChannel)+len(fromAckerPending), len(newLeftovers))", "\tsession.metrics.OnSessionEnded(len(fromPrevious), len(fromAckerChannel), len(newLeftovers))", "session ends with chunks in the pending map"),
+    M("c19-r5-no-update-on-stop", "C19", "C19.R5", LPW, "func (worker *LogProcessingWorker) onStop() {\n\tworker.flushChunk()\n\tworker.procCounter.UpdateMetrics()\n", "func (worker *LogProcessingWorker) onStop() {\n\tworker.flushChunk()\n", "records processed in the last second before shutdown are missing from the counters"),
+    M("c19-r6-select-after-transforms", "C19", "C19.R6", LPW, "\t\ticounter := worker.procCounter.SelectMetricKeySet(record)\n\t\tif RunTransforms(record, worker.transformList) == base.DROP {", "\t\tresult := RunTransforms(record, worker.transformList)\n\t\ticounter := worker.procCounter.SelectMetricKeySet(record)\n\t\tif result == base.DROP {", "two consecutive records with different metric keys: transform counters attributed to the previous record's labels"),
+]
